@@ -75,13 +75,27 @@ def merged_only(val, den):
     return False
 
 
+def history(v, obs):
+    """the last record of the run: every vector decoded again after a history of rejected inputs on the same thread"""
+    h = [o for o in obs if o["id"] == "__history__"]
+    if len(h) != 1 or h[0]["rejected_inputs_fed"] < 1000:
+        raise lib.ToolError("history phase of the harness did not run")
+    v.case("history")
+    for c in h[0]["changed"]:
+        v.violation("decoding is not a function of the bytes: after a history of rejected inputs (too deeply nested terms, truncations, oversized counts) on the same thread "
+                    "a valid encoding decodes differently than before", c)
+    v.cov["vectors_decoded_again_after_rejected_inputs"] = h[0]["vectors"]
+    return [o for o in obs if o["id"] != "__history__"]
+
+
 def run(tier, seed):
     v = lib.Verdict(PID, tier, seed, "exploration")
     thorough = tier == "thorough"
     _, vp, recs, unenc = E.check_and_gen(PID, "D2" if thorough else "D1", "D2", True, thorough)
     recs_only = os.path.join(lib.outdir(PID), "vectors_only.ndjson")
     lib.write_ndjson(recs_only, recs)
-    obs = E.run_obs(PID, recs_only, {"borrowed": False, "seed": seed})
+    obs = E.run_obs(PID, recs_only, {"borrowed": False, "seed": seed, "history": True})
+    obs = history(v, obs)
     by_id = {r["id"]: r for r in recs}
     n_alts = 0
     whys = {}
